@@ -97,7 +97,12 @@ class Gen:
         if not cands:
             return None
         s = cands[int(self.rng.integers(len(cands)))]
-        name = f'{s["name"]} @ {s["adj_of"]}'
+        if self.rng.random() < 0.5 and not self.linop_safe:
+            # three factors: X^dagger @ B @ X with the Hermitian input B in the middle
+            name = f'{s["name"]} @ B @ {s["adj_of"]}'
+            self.features["hermitian_product_3"] += 1
+        else:
+            name = f'{s["name"]} @ {s["adj_of"]}'
         self.products[name] = True
         self.features["hermitian_product"] += 1
         return f'"{name}"'
@@ -110,6 +115,10 @@ class Gen:
             a = avail[int(rng.integers(len(avail)))]
             return f'"{a}"' + (".adj" if rng.random() < 0.3 and a in self.adjointable(m) else "")
         if r < 0.45:
+            if self.rng.random() < 0.3:
+                h = self.herm_product_atom(m)
+                if h:
+                    return h
             return self.product_atom(m)
         if r < 0.6:
             op = "+" if rng.random() < 0.6 else "-"
@@ -570,7 +579,7 @@ def finalize(c, tier, evaluations, distinct):
     need = dict(programs=300, elements_compared=30000, deletion_differentials=100, linop_differentials=20, deletions=1000,
                 shipped_main=20, shipped_nonhermitian=20, flag_differential_elements=1000, construct_marker=50, construct_conditional=50,
                 construct_function_of_series=30, construct_function_of_expr=50, construct_nested_function=10, construct_product_2=100,
-                construct_product_3=30, construct_recursive_product=50, construct_guard_diagonal=100, construct_guard_offdiagonal=100,
+                construct_product_3=30, construct_recursive_product=50, construct_hermitian_product=30, construct_hermitian_product_3=10, construct_guard_diagonal=100, construct_guard_offdiagonal=100,
                 construct_guard_sandwich=20, custom_diag_offdiag=50)
     for k, v in need.items():
         if c.get(k, 0) < v:
